@@ -11,8 +11,8 @@ from props import c08 as T
 
 ID = 'C09'
 PROFILES = ['debug', 'release']
-THEOREMS = ['C09_bound_explicit', 'C09_unresolved_root', 'C09_deterministic', 'C09_single_loop',
-            'C09_binary_fuel_same_loop', 'C09_bound_as_fuel']
+THEOREMS = ['C09_bound_explicit', 'C09_terminates', 'C09_terminates_fuel', 'C09_fuel_independent', 'C09_check_never_panics', 'C09_unresolved_root',
+            'C09_deterministic', 'C09_single_loop', 'C09_binary_fuel_same_loop', 'C09_bound_as_fuel']
 ALLOWED_AXIOMS = []
 CASE_TIMEOUT = 120
 
@@ -217,6 +217,28 @@ def cases(tier, rng):
         n = rng.choice([3, 4, 4])
         tctx, root = rng.choice(specs)
         out.append(T.mk_case('s', random_graph(rng, n), tctx, root, ('R', rng.randrange(1, n + 1), 0)))
+    # backtracking shapes: a sibling that fails deep inside, next to pending / in-progress disjuncts
+    deep = [rep(('A', rep(('A', rep(('p', 'i')), None)), None)), rep(('D', ((K_, rep(('A', rep(('p', 'm')), None)), '+'),), None)),
+            rep(('H', (rep(('p', 'i')), rep(('A', rep(('p', 'n')), None))))), rep(('p', 'i'))]
+    disj = [rep(('O', (rep(('p', 'i')), rep(('p', 'm'))))), rep(('O', (rep(('A', rep(('p', 'i')), None)), rep(('p', 'n')), rep(('p', 'm')))), None, '!'),
+            rep(('O', (rep(('O', (rep(('p', 's')), rep(('p', 'i'))))), rep(('A', rep(('p', 'm')), None)))), ('N', (b'A',)))]
+    vals = [('A', (('A', (('i', 5),)),)), ('A', (('A', (('m', b'A'),)),)), ('D', ((K_, ('A', (('m', b'A'),))),)), ('D', ((K_, ('A', (('i', 5),))),)),
+            ('A', (('i', 5), ('A', (('n',),)))), ('A', (('i', 5), ('A', (('i', 5),)))), ('i', 5), ('m', b'A'), ('n',), ('A', (('i', 5),)), ('R', 1, 0), ('R', 9, 0)]
+    for x in deep:
+        for d1 in disj:
+            for d2 in disj + deep[:2]:
+                for shape in (('H', (x, d1, d2)), ('H', (d1, x, d2)), ('O', (rep(('H', (x, d1))), rep(('H', (d1, d2)))))):
+                    for _ in range(6 if tier == 'thorough' else 2):
+                        n = 3 if shape[0] == 'H' else 2
+                        obj = ('A', tuple(rng.choice(vals) for _ in range(n)))
+                        ctx = {(1, 0): rng.choice(vals[:10])}
+                        out.append(T.mk_case('s', ctx, {}, rep(shape), obj))
+    # a sample of the small-scope product of C08, with the step count
+    specs = T.exhaustive_specs()
+    objs = T.small_objects()
+    ctxs = T.small_ctxs()
+    for _ in range(30000 if tier == 'thorough' else 4000):
+        out.append('s %s - %s %s' % (T.show_octx(rng.choice(ctxs)), T.show_chk(rng.choice(specs)), T.show_obj(rng.choice(objs))))
     # the C08 random specification/object pairs, with the step count
     n_c = 30000 if tier == 'thorough' else 3000
     for _ in range(n_c):
@@ -247,8 +269,8 @@ TRUSTED = ['model of pdf_type_check.rs in coq/Model/TypeCheck.v (hand transcript
            'hook verif_steps (commit 68a7afd): counter incremented at the heads of the three loops']
 ASSUMPTIONS = ['the root check resolves (otherwise check_type returns before the loop, C09_unresolved_root)',
                'set operations on the memo terminate (BTreeSet over a total order: Ord of TypeCheckRep compares typ only)']
-LEVEL_TEXT = ('Coq theorems, all object graphs and all specifications: the work loop stops within step_bound = |O|*|C|*(2+(fc+2)(fo+fc+2))+fc+4 '
+LEVEL_TEXT = ('Coq theorems, all object graphs and all specifications: the work loop stops within step_bound = P*M*(P+1)+P+K+2 (P=|O|*|C|, K=fc+3, M=2+K(fo+fc+2)) '
               'iterations and 5*step_bound+2 iterations of all three loops; the loop is the iteration of one non-recursive step on an explicit stack; '
               'the verdict is independent of the fuel beyond the bound; iteration counts of implementation and model agree on every case')
 LEVEL_NOTE = 'trusted: Coq kernel, hand transcription Model/TypeCheck.v, extraction + drv.ml, harness c09.rs/c08.rs/tcspec.rs, hook verif_steps'
-TECHNIQUE = 'Coq proof by a lexicographic measure (uncovered universe pairs, weight of the pending stack) + differential run with step counts'
+TECHNIQUE = 'Coq proof by a lexicographic measure (universe pairs not yet failed, not yet examined, weight of the pending stack) with a stack invariant for the rollback of the memo + differential run with step counts'
